@@ -467,6 +467,63 @@ def replay_defs_state(mods, hdr, st, idx, res):
                 res.samples.append({"clause": clause, "pairs": sorted(arg), "samples": s_i, "weights": w_i,
                                     "result": [[float(x) for x in s2], [float(x) for x in w2]],
                                     "spec": {"zero": sorted(zero), "total_kept": obs["total"], "mean_kept": obs["mean"]}})
+    # ---------------------------------------------------------------- impose_unweighted(nullable=False)
+    # where something remains the flag must change nothing; where nothing remains (spec: NeedsRescue) the
+    # non-designated positions share the total equally (spec: RescueWeights), total and mean kept
+    f = mm.impose_unweighted
+    rescue = {int(jr[0]): jr[1] for jr in st.get("unw_rescue", [])}
+    okj = set(st["unw_ok"])
+    for j, sel in enumerate(sels["unweighted"], 1):
+        zero = set(i - 1 for i in sel["zero"])
+        arg = [i - 1 for i in sel["arg"]]
+        ctx = {"fn": "impose_unweighted", "nullable": False, "selection": sorted(arg), "samples": s_i, "weights": w_i, "container": vname}
+        if j in okj:
+            if (idx + j) % 4:
+                continue                                 # a quarter of the ordinary selections (same code path)
+            clause = "impose_unweighted[nullable=False,remaining]"
+            res.case(clause, any(w_i[i] for i in zero))
+            try:
+                a1, b1 = f(arg, S, W)
+                a2, b2 = f(arg, S, W, nullable=False)
+            except Exception as ex:
+                res.violation("%s:raises-%s" % (clause, type(ex).__name__), dict(ctx, error=repr(ex)[:300]),
+                              "%s(%s, %s, %s) raised %r" % (clause, sorted(arg), s_i, w_i, ex))
+                continue
+            r1 = [[float(x) for x in a1], [float(x) for x in b1]]
+            r2 = [[float(x) for x in a2], [float(x) for x in b2]]
+            if r1 != r2:
+                res.violation("%s:differs-from-nullable" % clause, dict(ctx, nullable_true=r1, nullable_false=r2),
+                              "impose_unweighted(%s, %s, %s): nullable=False changed the result although weight remains: %s vs %s" % (
+                                  sorted(arg), s_i, w_i, r1, r2))
+        elif j in rescue:
+            clause = "impose_unweighted[nullable=False,rescue]"
+            res.case(clause, True)
+            try:
+                s2, w2 = f(arg, S, W, nullable=False)
+            except Exception as ex:
+                res.violation("%s:raises-%s" % (clause, type(ex).__name__), dict(ctx, error=repr(ex)[:300]),
+                              "%s(%s, %s, %s) raised %r" % (clause, sorted(arg), s_i, w_i, ex))
+                continue
+            if len(s2) != n or len(w2) != n or not finite(s2) or not finite(w2):
+                res.violation("%s:returns-nan-where-defined" % clause, dict(ctx, got=[repr(s2), repr(w2)]),
+                              "%s(%s, %s, %s) is defined (spec) but mystic returned %r %r" % (clause, sorted(arg), s_i, w_i, s2, w2))
+                continue
+            s2q, w2q = ivec(s2), ivec(w2)
+            want = [float(q[0]) / float(q[1]) for q in rescue[j]]
+            gotw = [float(x) for x in w2]
+            out = dict(ctx, result=[float(x) for x in s2], result_weights=gotw, spec_weights=want)
+            if any(abs(g - w) > 1e-12 + 1e-9 * abs(w) for g, w in zip(gotw, want)):
+                res.violation("%s:weights" % clause, out,
+                              "impose_unweighted(%s, %s, %s, nullable=False): weights %s, specification %s" % (
+                                  sorted(arg), s_i, w_i, gotw, want))
+                continue
+            tot2, mean2 = (sum(w2q[0]), w2q[1]), i_mean(s2q, w2q)
+            if not qclose(tot2, total0):
+                res.violation("%s:total-weight-not-kept" % clause, out,
+                              "%s(%s, %s, %s): total weight %s -> %s" % (clause, sorted(arg), s_i, w_i, fl(total0), fl(tot2)))
+            elif not qclose(mean2, mean0):
+                res.violation("%s:mean-not-kept" % clause, out,
+                              "%s(%s, %s, %s): weighted mean %s -> %s" % (clause, sorted(arg), s_i, w_i, fl(mean0), fl(mean2)))
     res.traces += 1
 
 
@@ -844,6 +901,14 @@ def selftest(a):
             return orig["impose_unweighted"](sorted(index), samples, weights, nullable)
         mm.impose_unweighted = impose_unweighted
 
+    def m_unweighted_rescue_tests_original_total():
+        # seeded change C18a: the nullable=False rescue tests the ORIGINAL total instead of the remaining weight
+        def impose_unweighted(index, samples, weights, nullable=True):
+            if not nullable and sum(weights):
+                nullable = True
+            return orig["impose_unweighted"](index, samples, weights, nullable)
+        mm.impose_unweighted = impose_unweighted
+
     def m_corrupt_expected():
         CORRUPT["on"] = True
 
@@ -860,6 +925,7 @@ def selftest(a):
                ("median returns the upper weighted median", m_median_upper),
                ("_k rounds the trimming cut to whole numbers", m_tmean_rounds_cut),
                ("impose_unweighted never zeroes position 0", m_unweighted_keeps_weight_on_first),
+               ("impose_unweighted(nullable=False) rescue tests the original total", m_unweighted_rescue_tests_original_total),
                ("one expected value from TLC corrupted (no mutation of mystic)", m_corrupt_expected)]
     missed = 0
     for name, mut in mutants:
